@@ -75,8 +75,8 @@ print(json.dumps(out))
 # about third-party code; it is validated on every run by the fault enumeration of the `faults` stream (an
 # exception class outside this list escaping a loader shows up there as an uncaught exception).
 RAISABLE = {
-    "json": ["json.decoder.JSONDecodeError", "builtins.UnicodeDecodeError"],
-    "json5": ["builtins.ValueError", "builtins.UnicodeDecodeError"],
+    "json": ["json.decoder.JSONDecodeError", "builtins.UnicodeDecodeError", "builtins.RecursionError"],
+    "json5": ["builtins.ValueError", "builtins.UnicodeDecodeError", "builtins.RecursionError"],
     "yaml": ["yaml.scanner.ScannerError", "yaml.parser.ParserError", "yaml.reader.ReaderError",
              "yaml.composer.ComposerError", "yaml.constructor.ConstructorError"],
     "xml": ["xml.etree.ElementTree.ParseError"],
